@@ -11,6 +11,13 @@ REPO = os.environ.get("PYVC_REPO", "/repo")
 NATIVE_PY = "/venv/bin/python"
 
 PLANS = {
+    "C10": {
+        "level": "proof",
+        "sidecars": ["cifread"],
+        "extras": [{"name": "c10_equivalence", "module": "bounded.c10_equivalence", "func": "run", "python": "venv"}],
+        "explanation": "the record assembled for an atom_site row parses back to the row's items under both missing-value "
+                       "conventions (layout logic); model list keeps file order; PDB-vs-mmCIF pipeline equivalence bounded",
+    },
     "C03": {
         "level": "other",
         "sidecars": ["serialise", "params", "driver"],
